@@ -403,6 +403,20 @@ class WithOptions(Evaluatable[B]):
             else mix(self.options, options)  # type: ignore
         )
 
+    def _is_preset(self, key: str, options: Options) -> bool:
+        """Whether the value under a key is determined by the wrapper's options alone."""
+        if not dotted_key_exists(key, self.options):
+            return False
+        if not self.force:
+            return not dotted_key_exists(key, options)
+        # Forced options replace the caller's values, except that sections (dicts)
+        # are merged entry by entry, so the caller's entries remain visible.
+        return not (
+            isinstance(get_dotted_key(key, self.options), dict)
+            and dotted_key_exists(key, options)
+            and isinstance(get_dotted_key(key, options), dict)
+        )
+
     def evaluate(self, options: Options) -> B:
         """Evaluate the wrapped Evaluatable object with the provided options."""
         return self.evaluatable.evaluate(self._options(options))
@@ -416,10 +430,7 @@ class WithOptions(Evaluatable[B]):
         return {
             key
             for key in self.evaluatable.keys(self._options(options))
-            if not (
-                dotted_key_exists(key, self.options)
-                and (self.force or not dotted_key_exists(key, options))
-            )
+            if not self._is_preset(key, options)
         }
 
     def explain(self, options: Optional[Options] = None) -> Set[str]:
@@ -428,10 +439,7 @@ class WithOptions(Evaluatable[B]):
         return {
             key
             for key in self.evaluatable.explain(self._options(options))
-            if not (
-                dotted_key_exists(key, self.options)
-                and (self.force or not dotted_key_exists(key, options))
-            )
+            if not self._is_preset(key, options)
         }
 
     def __repr__(self) -> str:
